@@ -44,6 +44,8 @@ func main() {
 		cmdSeq(fs, os.Args[2:])
 	case "fuzz":
 		cmdFuzz(fs, os.Args[2:])
+	case "codec":
+		cmdCodec(fs, os.Args[2:])
 	default:
 		fmt.Fprintf(os.Stderr, "harness: unknown subcommand %q\n", sub)
 		os.Exit(2)
